@@ -934,19 +934,33 @@ def wrap_atoms(t):
     return t
 
 
+def wrap_delimited(t):
+    """every operand that is delimited by the syntax itself - call argument, array-literal element, index expression -
+    in a pair of redundant parentheses (the printer never parenthesises these positions)"""
+    l = list(t)
+    for c in children(t):
+        l[c] = wrap_delimited(t[c])
+    if t[0] == "I" and l[2][0] not in ("P", "N", "V"):
+        l[2] = ("P", l[2])
+    t = tuple(l)
+    if t[0] in ARGS_AT:
+        t = with_args(t, [a if a[0] in ("P", "N", "V") else ("P", a) for a in (wrap_delimited(a) for a in args_of(t))])
+    return t
+
+
 def property_oracle(impl_dir, seed, t):
     """The property's own reading on one source tree: println of the text as given (with its redundant
     parentheses), of the minimal text and of the fully parenthesised text must print the same value
     (operand values by brute force in the model), and the real parser must build the same AST for the three
     texts.  -> (violated?, description, payload)"""
     t0 = strip(t)
-    mt = model_tree([t, t0, model_full([t0])[0], wrap_atoms(t0)])
-    forms = [("given", mt[0]["text"]), ("minimal", mt[1]["text"]), ("full", mt[2]["text"]), ("identifiers parenthesised", mt[3]["text"])]
+    mt = model_tree([t, t0, model_full([t0])[0], wrap_atoms(t0), wrap_delimited(t0)])
+    forms = [("given", mt[0]["text"]), ("minimal", mt[1]["text"]), ("full", mt[2]["text"]), ("identifiers parenthesised", mt[3]["text"]),
+             ("arguments, elements and indices parenthesised", mt[4]["text"])]
+    keep = [0, 1, 2] + [k for k in (3, 4) if mt[k]["safe"] and forms[k][1] not in [f[1] for f in forms[:k]]]
     if forms[0][1] == forms[1][1]:
-        forms = forms[1:]
-    if forms[-1][1] in [f[1] for f in forms[:-1]] or not mt[3]["safe"]:
-        forms = forms[:-1]
-        mt = mt[:3]
+        keep.remove(0)
+    forms, mt = [forms[k] for k in keep], [mt[k] for k in keep]
     texts = [x[1] for x in forms]
     d = impl_dumps(impl_dir, texts, [False] * len(texts))
     payload = {"texts": dict(forms), "impl_ast": dict(zip([x[0] for x in forms], d))}
